@@ -52,11 +52,18 @@ def _freevars(fn):
 def coq_char(c: str) -> str:
     if len(c) != 1 or c == '"' or not (32 < ord(c) < 127):
         raise GenError("unexpected format character %r" % c)
-    return '"%s"%%char' % c
+    return '"%s"%%byte' % c
+
+
+def coq_lit(s: str) -> str:
+    """Python str (ASCII) as a Coq `list byte` through the `lit` string notation"""
+    if '"' in s or any(ord(c) > 126 or ord(c) < 32 for c in s):
+        raise GenError("unexpected character in string %r" % s)
+    return 'str "%s"' % s
 
 
 def coq_layout(pairs) -> str:
-    return "[" + "; ".join("(%s, %s)" % (coq_str(n), coq_str(t)) for n, t in pairs) + "]"
+    return "[" + "; ".join("(%s, %s)" % (coq_lit(n), coq_lit(t)) for n, t in pairs) + "]"
 
 
 def gen_messages() -> str:
@@ -144,12 +151,20 @@ def gen_messages() -> str:
             raise GenError("InvItem.%s differs from the source literal" % nm)
 
     out = ["(* GENERATED by harness/gens/messages_c16.py from /repo — do not edit. *)\n"
-           "From Coq Require Import List NArith ZArith String Ascii.\nFrom Coq Require Import Strings.Byte.\nImport ListNotations.\n\n"]
-    out.append("Definition std_messages : list (string * list (string * string)) :=\n  [ " +
-               ";\n    ".join("(%s, %s)" % (coq_str(k), coq_layout(_split_layout(v))) for k, v in live.items()) + " ].\n\n")
-    out.append("Definition alert_layout : list (string * string) :=\n  %s.\n\n" % coq_layout(alert_pairs))
-    out.append("Definition registered_chars : list ascii := [" + "; ".join(coq_char(c) for c in chars) + "].\n\n")
-    out.append("Definition post_unpack_names : list string := [" + "; ".join(coq_str(k) for k in sorted(posts)) + "].\n\n")
+           "From Coq Require Import List NArith ZArith.\nFrom Coq Require Import Strings.Byte.\nImport ListNotations.\n\n"
+           "(* Python str (ASCII only) is a `list byte`; `str \"text\"` is the literal (no Coq `string`, so that the\n"
+           "   extracted OCaml does not shadow OCaml's own string type) *)\n"
+           "Inductive lit := Lit (l : list byte).\n"
+           "Definition lit_of (l : list byte) : lit := Lit l.\n"
+           "Definition of_lit (x : lit) : list byte := match x with Lit l => l end.\n"
+           "Declare Scope lit_scope.\nDelimit Scope lit_scope with lit.\n"
+           "String Notation lit lit_of of_lit : lit_scope.\n"
+           "Definition str (x : lit) : list byte := of_lit x.\nArguments str x%lit.\n\n"]
+    out.append("Definition std_messages : list (list byte * list (list byte * list byte)) :=\n  [ " +
+               ";\n    ".join("(%s, %s)" % (coq_lit(k), coq_layout(_split_layout(v))) for k, v in live.items()) + " ].\n\n")
+    out.append("Definition alert_layout : list (list byte * list byte) :=\n  %s.\n\n" % coq_layout(alert_pairs))
+    out.append("Definition registered_chars : list byte := [" + "; ".join(coq_char(c) for c in chars) + "].\n\n")
+    out.append("Definition post_unpack_names : list (list byte) := [" + "; ".join(coq_lit(k) for k in sorted(posts)) + "].\n\n")
     out.append("Definition ip4_header : list byte := %s.\n\n" % coq_bytes(ip4))
     out.append("Definition inv_checked_types : list Z := [" +
                "; ".join("(%d)%%Z" % consts[nm] for nm in ("ITEM_TYPE_TX", "ITEM_TYPE_BLOCK", "ITEM_TYPE_MERKLEBLOCK")) + "].\n")
